@@ -1,176 +1,185 @@
 // C29 / C28 contracts for src/btree/leaf.rs — per-operation contracts on ONE leaf page (bounded):
-// a well-formed leaf with <= 3 cells, keys and values of 1..=3 bytes, pages scaled to 256 bytes.
-// Every page byte is symbolic; well-formedness is assumed through `wf_leaf`, the abstract view
-// (ordered list of (key, value)) is read back through the real accessors key_at / value_at.
+// an arbitrary well-formed leaf with n <= 2 cells before the operation (n and the position operands are
+// concrete per harness — case split — everything else is symbolic: every page byte, every cell offset,
+// key/value lengths in 1..=2, fragmentation counter, next_leaf), pages scaled to 256 bytes.
+// The abstract view (ordered list of (key, value)) is read back through the REAL accessors
+// LeafNode::key_at / value_at; structural validity is checked on the raw bytes.
 use super::*;
 use crate::verif_stubs as vs;
 
-const MAXC: usize = 3;   // cells
-const MAXL: usize = 3;   // key / value bytes
+const MAXL: usize = 2; // key / value bytes
 
 #[repr(C, align(8))]
 struct Pg([u8; PAGE_SIZE]);
 
-fn hdr(pg: &Pg) -> (u8, usize, usize, usize, u8) {
-    let h = PageHeader::from_bytes(&pg.0[..]).unwrap();
-    (h.page_type() as u8, h.cell_count() as usize, h.free_start() as usize, h.free_end() as usize, h.frag_bytes())
+#[derive(Clone, Copy)]
+struct Cell { off: usize, kl: usize, vl: usize }
+impl Cell {
+    fn end(&self) -> usize { self.off + self.kl + 1 + self.vl }
 }
-/// (offset, key_len, prefix) of slot i read from the raw bytes
-fn slot(pg: &Pg, i: usize) -> (usize, usize, [u8; 4]) {
-    let o = LEAF_CONTENT_START + i * SLOT_SIZE;
-    (u16::from_le_bytes([pg.0[o + 4], pg.0[o + 5]]) as usize, u16::from_le_bytes([pg.0[o + 6], pg.0[o + 7]]) as usize,
-     [pg.0[o], pg.0[o + 1], pg.0[o + 2], pg.0[o + 3]])
+
+fn wr16(pg: &mut Pg, o: usize, v: u16) { let b = v.to_le_bytes(); pg.0[o] = b[0]; pg.0[o + 1] = b[1]; }
+fn rd16(pg: &Pg, o: usize) -> usize { u16::from_le_bytes([pg.0[o], pg.0[o + 1]]) as usize }
+
+/// lexicographic a < b for keys of length <= MAXL given as (bytes, len)
+fn key_lt(a: &[u8; MAXL], al: usize, b: &[u8; MAXL], bl: usize) -> bool {
+    if al == 0 { return bl > 0; }
+    if bl == 0 { return false; }
+    if a[0] != b[0] { return a[0] < b[0]; }
+    if al == 1 { return bl > 1; }
+    if bl == 1 { return false; }
+    a[1] < b[1]
 }
-fn key_less(pg: &Pg, a: (usize, usize), b: (usize, usize)) -> bool {
-    // lexicographic a < b on page-resident keys of length <= MAXL
-    let mut j = 0;
-    while j < MAXL {
-        if j >= a.1 { return j < b.1; }
-        if j >= b.1 { return false; }
-        if pg.0[a.0 + j] != pg.0[b.0 + j] { return pg.0[a.0 + j] < pg.0[b.0 + j]; }
-        j += 1;
-    }
-    false
+fn key_of(pg: &Pg, c: &Cell) -> ([u8; MAXL], usize) {
+    let mut k = [0u8; MAXL];
+    k[0] = pg.0[c.off];
+    if c.kl > 1 { k[1] = pg.0[c.off + 1]; }
+    (k, c.kl)
 }
-/// structural validity of one leaf page (the C29 clauses that concern a single node):
-/// header type/counters, slot area and cell area inside the page and not overlapping, cells inside
-/// [free_end, PAGE_SIZE) and pairwise disjoint, slot prefix == extract_prefix(key), keys strictly increasing
-fn wf_leaf(pg: &Pg, max_cells: usize) -> bool {
-    let (ty, n, fs, fe, _frag) = hdr(pg);
-    if ty != PageType::BTreeLeaf as u8 || n > max_cells { return false; }
-    if fs != LEAF_CONTENT_START + n * SLOT_SIZE || fs > fe || fe > PAGE_SIZE { return false; }
-    let mut ok = true;
+fn val_of(pg: &Pg, c: &Cell) -> ([u8; MAXL], usize) {
+    let mut v = [0u8; MAXL];
+    let s = c.off + c.kl + 1;
+    v[0] = pg.0[s];
+    if c.vl > 1 { v[1] = pg.0[s + 1]; }
+    (v, c.vl)
+}
+
+/// Builds an ARBITRARY well-formed leaf page with exactly `n` (<= 2) cells: arbitrary page bytes, then the
+/// header, the slots and the value-length bytes are written from symbolic, constrained descriptors.
+/// Every well-formed page with n cells of key/value length 1..=2 arises this way.
+fn any_wf_leaf(n: usize) -> (Pg, [Cell; 2], usize, u8, u32) {
+    let mut pg = Pg(kani::any());
+    let fe: usize = kani::any();
+    let frag: u8 = kani::any();
+    let next: u32 = kani::any();
+    let fs = LEAF_CONTENT_START + n * SLOT_SIZE;
+    kani::assume(fe >= fs && fe <= PAGE_SIZE);
+    let mut cells = [Cell { off: 0, kl: 1, vl: 1 }; 2];
     let mut i = 0;
-    while i < MAXC + 1 {
+    while i < 2 {
         if i < n {
-            let (off, kl, pre) = slot(pg, i);
-            if kl < 1 || kl > MAXL || off < fe || off + kl + 1 > PAGE_SIZE { return false; }
-            let vl = pg.0[off + kl] as usize;           // 1-byte varint (values <= MAXL bytes)
-            if vl < 1 || vl > MAXL || off + kl + 1 + vl > PAGE_SIZE { return false; }
-            if pre != extract_prefix(&pg.0[off..off + kl]) { ok = false; }
-            let end = off + kl + 1 + vl;
-            let mut j = 0;
-            while j < MAXC + 1 {
-                if j < n && j != i {
-                    let (o2, k2, _) = slot(pg, j);
-                    if o2 + k2 + 1 <= PAGE_SIZE {
-                        let e2 = o2 + k2 + 1 + pg.0[o2 + k2] as usize;
-                        if !(end <= o2 || e2 <= off) { ok = false; }       // cells pairwise disjoint
-                    }
-                }
-                j += 1;
-            }
-            if i + 1 < n {
-                let (o2, k2, _) = slot(pg, i + 1);
-                if k2 >= 1 && k2 <= MAXL && o2 + k2 <= PAGE_SIZE && !key_less(pg, (off, kl), (o2, k2)) { ok = false; }
-            }
+            let c = Cell { off: kani::any(), kl: kani::any(), vl: kani::any() };
+            kani::assume(c.kl >= 1 && c.kl <= MAXL && c.vl >= 1 && c.vl <= MAXL);
+            kani::assume(c.off >= fe && c.off < PAGE_SIZE && c.end() <= PAGE_SIZE);
+            cells[i] = c;
         }
         i += 1;
     }
-    ok
+    if n == 2 {
+        kani::assume(cells[0].end() <= cells[1].off || cells[1].end() <= cells[0].off); // disjoint cells
+    }
+    // header
+    {
+        let h = PageHeader::from_bytes_mut(&mut pg.0[..]).unwrap();
+        h.set_page_type(PageType::BTreeLeaf);
+        h.set_cell_count(n as u16);
+        h.set_free_start(fs as u16);
+        h.set_free_end(fe as u16);
+        h.set_frag_bytes(frag);
+        h.set_next_leaf(next);
+    }
+    // value-length bytes, then slots (prefix taken from the symbolic key bytes)
+    let mut i = 0;
+    while i < 2 {
+        if i < n {
+            let c = cells[i];
+            pg.0[c.off + c.kl] = c.vl as u8;
+            let pre = extract_prefix(&pg.0[c.off..c.off + c.kl]);
+            let o = LEAF_CONTENT_START + i * SLOT_SIZE;
+            pg.0[o] = pre[0]; pg.0[o + 1] = pre[1]; pg.0[o + 2] = pre[2]; pg.0[o + 3] = pre[3];
+            wr16(&mut pg, o + 4, c.off as u16);
+            wr16(&mut pg, o + 6, c.kl as u16);
+        }
+        i += 1;
+    }
+    if n == 2 {
+        let (k0, l0) = key_of(&pg, &cells[0]);
+        let (k1, l1) = key_of(&pg, &cells[1]);
+        kani::assume(key_lt(&k0, l0, &k1, l1)); // strictly increasing keys
+    }
+    (pg, cells, fe, frag, next)
 }
-/// entry i of the abstract view, read through the REAL accessors (key bytes, value bytes, lengths)
+
+/// structural validity of a leaf page with exactly `n` (<= 3) cells, on the raw bytes
+fn wf_leaf(pg: &Pg, n: usize) -> bool {
+    let h = PageHeader::from_bytes(&pg.0[..]).unwrap();
+    if h.page_type() != PageType::BTreeLeaf || h.cell_count() as usize != n { return false; }
+    let (fs, fe) = (h.free_start() as usize, h.free_end() as usize);
+    if fs != LEAF_CONTENT_START + n * SLOT_SIZE || fs > fe || fe > PAGE_SIZE { return false; }
+    let mut cs = [Cell { off: 0, kl: 0, vl: 0 }; 3];
+    let mut i = 0;
+    while i < 3 {
+        if i < n {
+            let o = LEAF_CONTENT_START + i * SLOT_SIZE;
+            let off = rd16(pg, o + 4);
+            let kl = rd16(pg, o + 6);
+            if kl < 1 || kl > MAXL || off < fe || off + kl + 1 > PAGE_SIZE { return false; }
+            let vl = pg.0[off + kl] as usize;
+            if vl < 1 || vl > MAXL || off + kl + 1 + vl > PAGE_SIZE { return false; }
+            let pre = extract_prefix(&pg.0[off..off + kl]);
+            if pg.0[o] != pre[0] || pg.0[o + 1] != pre[1] || pg.0[o + 2] != pre[2] || pg.0[o + 3] != pre[3] { return false; }
+            cs[i] = Cell { off, kl, vl };
+        }
+        i += 1;
+    }
+    let dis = |a: &Cell, b: &Cell| a.end() <= b.off || b.end() <= a.off;
+    if n >= 2 && !dis(&cs[0], &cs[1]) { return false; }
+    if n >= 3 && (!dis(&cs[0], &cs[2]) || !dis(&cs[1], &cs[2])) { return false; }
+    if n >= 2 { let (a, al) = key_of(pg, &cs[0]); let (b, bl) = key_of(pg, &cs[1]); if !key_lt(&a, al, &b, bl) { return false; } }
+    if n >= 3 { let (a, al) = key_of(pg, &cs[1]); let (b, bl) = key_of(pg, &cs[2]); if !key_lt(&a, al, &b, bl) { return false; } }
+    true
+}
+
+/// entry i of the abstract view, read through the REAL accessors
 fn entry(pg: &Pg, i: usize) -> Option<([u8; MAXL], usize, [u8; MAXL], usize)> {
     let leaf = vs::is_ok_forget(LeafNode::from_page(&pg.0[..]))?;
     let k = vs::is_ok_forget(leaf.key_at(i))?;
     let v = vs::is_ok_forget(leaf.value_at(i))?;
-    if k.len() > MAXL || v.len() > MAXL { return None; }
+    if k.len() > MAXL || v.len() > MAXL || k.is_empty() || v.is_empty() { return None; }
     let mut kb = [0u8; MAXL];
     let mut vb = [0u8; MAXL];
-    let mut j = 0;
-    while j < MAXL {
-        if j < k.len() { kb[j] = k[j]; }
-        if j < v.len() { vb[j] = v[j]; }
-        j += 1;
-    }
+    kb[0] = k[0]; if k.len() > 1 { kb[1] = k[1]; }
+    vb[0] = v[0]; if v.len() > 1 { vb[1] = v[1]; }
     Some((kb, k.len(), vb, v.len()))
 }
-fn any_kv() -> ([u8; MAXL], usize, [u8; MAXL], usize) {
+fn same_entry(e: Option<([u8; MAXL], usize, [u8; MAXL], usize)>, k: &[u8; MAXL], kl: usize, v: &[u8; MAXL], vl: usize) -> bool {
+    match e {
+        Some((ek, ekl, ev, evl)) => ekl == kl && evl == vl && ek[0] == k[0] && (kl < 2 || ek[1] == k[1]) && ev[0] == v[0] && (vl < 2 || ev[1] == v[1]),
+        None => false,
+    }
+}
+/// new key / value with CONCRETE lengths (a symbolic-length copy_from_slice into the page costs CBMC > 48 GB)
+fn any_kv(kl: usize, vl: usize) -> ([u8; MAXL], usize, [u8; MAXL], usize) {
     let (kb, vb): ([u8; MAXL], [u8; MAXL]) = (kani::any(), kani::any());
-    let (kl, vl): (usize, usize) = (kani::any(), kani::any());
-    kani::assume(kl >= 1 && kl <= MAXL && vl >= 1 && vl <= MAXL);
     (kb, kl, vb, vl)
 }
-fn key_cmp_page(pg: &Pg, i: usize, k: &[u8]) -> core::cmp::Ordering {
-    let (off, kl, _) = slot(pg, i);
-    let mut j = 0;
-    while j < MAXL {
-        if j >= kl || j >= k.len() { break; }
-        if pg.0[off + j] != k[j] { return pg.0[off + j].cmp(&k[j]); }
-        j += 1;
-    }
-    kl.cmp(&k.len())
-}
 
-macro_rules! stubs {
-    ($($item:item)*) => { $(
-        #[kani::stub(eyre::capture_handler, vs::capture_handler)]
-        #[kani::stub(eyre::private::new_adhoc, vs::new_adhoc)]
-        #[kani::stub(eyre::private::format_err, vs::format_err)]
-        #[kani::stub(alloc::fmt::format, vs::format)]
-        $item
-    )* };
-}
-
-stubs! {
-//@ props=C29,C28 kind=bounded small_pages=1 bound="one leaf page; PAGE_SIZE scaled to 256 bytes; <= 3 cells; keys/values 1..=3 bytes" timeout=1500
-/// init: any page bytes become a well-formed empty leaf (base case of the page invariant)
-#[kani::proof]
-#[kani::unwind(6)]
-fn c29_leaf_init_wf() {
-    let mut pg = Pg(kani::any());
-    let ok = vs::is_ok_forget(LeafNodeMut::init(&mut pg.0[..])).is_some();
-    assert!(ok);
-    assert!(wf_leaf(&pg, 0));
-    let (_t, n, _fs, fe, frag) = hdr(&pg);
-    assert!(n == 0 && fe == PAGE_SIZE && frag == 0);
-}
-
-//@ props=C29,C28 kind=bounded small_pages=1 bound="one leaf page; PAGE_SIZE scaled to 256 bytes; <= 3 cells; keys/values 1..=3 bytes" timeout=1500
-/// insert_cell_at(key, value, pos) on an arbitrary well-formed leaf with n <= 2 cells, pos the ordered
-/// position of a key not yet present: Ok => still well formed with n+1 cells, entry pos is (key, value),
-/// every other entry keeps its key and value (witness index) and next_leaf is unchanged;
-/// Err (not enough space) => the page is byte-for-byte unchanged (witness offset)
-#[kani::proof]
-#[kani::unwind(6)]
-fn c29_insert_cell_at_step() {
-    let mut pg = Pg(kani::any());
-    kani::assume(wf_leaf(&pg, MAXC - 1));
-    let (_t, n, _fs, _fe, _frag) = hdr(&pg);
-    let (kb, kl, vb, vl) = any_kv();
-    let pos: usize = kani::any();
-    kani::assume(pos <= n);
-    if pos > 0 { kani::assume(key_cmp_page(&pg, pos - 1, &kb[..kl]) == core::cmp::Ordering::Less); }
-    if pos < n { kani::assume(key_cmp_page(&pg, pos, &kb[..kl]) == core::cmp::Ordering::Greater); }
-    let w: usize = kani::any();          // witness entry of the NEW page
-    kani::assume(w <= n);
-    let old_w = if w < pos { entry(&pg, w) } else if w > pos { entry(&pg, w - 1) } else { None };
+/// insert_cell_at(key, value, pos) on an arbitrary well-formed leaf with n cells, pos the ordered position
+/// of a key not yet present.  Ok => well formed with n+1 cells, entry pos is (key, value), the other entries
+/// keep key and value in order, next_leaf unchanged.  Err (not enough space) => page unchanged (witness byte).
+fn insert_case(n: usize, pos: usize, nkl: usize, nvl: usize) {
+    let (mut pg, cells, _fe, _frag, next) = any_wf_leaf(n);
+    assert!(wf_leaf(&pg, n));
+    let (kb, kl, vb, vl) = any_kv(nkl, nvl);
+    let old0 = if n >= 1 { (key_of(&pg, &cells[0]), val_of(&pg, &cells[0])) } else { (([0; MAXL], 0), ([0; MAXL], 0)) };
+    let old1 = if n >= 2 { (key_of(&pg, &cells[1]), val_of(&pg, &cells[1])) } else { (([0; MAXL], 0), ([0; MAXL], 0)) };
+    // caller's obligation: pos is where key belongs (strictly between its neighbours)
+    if pos >= 1 { let (k, l) = if pos == 1 { old0.0 } else { old1.0 }; kani::assume(key_lt(&k, l, &kb, kl)); }
+    if pos < n { let (k, l) = if pos == 0 { old0.0 } else { old1.0 }; kani::assume(key_lt(&kb, kl, &k, l)); }
     let wo: usize = kani::any();
     kani::assume(wo < PAGE_SIZE);
     let byte_before = pg.0[wo];
-    let next_before = PageHeader::from_bytes(&pg.0[..]).unwrap().next_leaf();
     let ok = {
         let mut leaf = match vs::is_ok_forget(LeafNodeMut::from_page(&mut pg.0[..])) { Some(l) => l, None => { assert!(false); return; } };
         vs::is_ok_forget(leaf.insert_cell_at(&kb[..kl], &vb[..vl], pos)).is_some()
     };
     if ok {
-        assert!(wf_leaf(&pg, MAXC));
-        assert!(hdr(&pg).1 == n + 1);
-        assert!(PageHeader::from_bytes(&pg.0[..]).unwrap().next_leaf() == next_before);
-        let e = entry(&pg, w);
-        assert!(e.is_some());
-        let (ek, ekl, ev, evl) = e.unwrap();
-        if w == pos {
-            assert!(ekl == kl && evl == vl);
-            let j: usize = kani::any();
-            kani::assume(j < MAXL);
-            if j < kl { assert!(ek[j] == kb[j]); }
-            if j < vl { assert!(ev[j] == vb[j]); }
-        } else {
-            assert!(old_w.is_some());
-            let (ok_, okl, ov, ovl) = old_w.unwrap();
-            assert!(ekl == okl && evl == ovl && ek == ok_ && ev == ov);
-        }
+        assert!(wf_leaf(&pg, n + 1));
+        assert!(PageHeader::from_bytes(&pg.0[..]).unwrap().next_leaf() == next);
+        assert!(same_entry(entry(&pg, pos), &kb, kl, &vb, vl));
+        if n >= 1 { let i = if pos == 0 { 1 } else { 0 }; assert!(same_entry(entry(&pg, i), &old0.0 .0, old0.0 .1, &old0.1 .0, old0.1 .1)); }
+        if n >= 2 { let i = if pos <= 1 { 2 } else { 1 }; assert!(same_entry(entry(&pg, i), &old1.0 .0, old1.0 .1, &old1.1 .0, old1.1 .1)); }
+        assert!(entry(&pg, n + 1).is_none());
     } else {
         assert!(pg.0[wo] == byte_before);
     }
@@ -178,60 +187,31 @@ fn c29_insert_cell_at_step() {
     kani::cover!(!ok);
 }
 
-//@ props=C29,C28 kind=bounded small_pages=1 bound="one leaf page; PAGE_SIZE scaled to 256 bytes; <= 3 cells; keys/values 1..=3 bytes" timeout=1500
-/// delete_cell(index) on an arbitrary well-formed leaf with 1..=3 cells (fragmentation below the
-/// compaction threshold): Ok, still well formed with n-1 cells, entries before index unchanged, entries
-/// after index shifted down by one with their key and value (witness index), next_leaf unchanged
-#[kani::proof]
-#[kani::unwind(6)]
-fn c29_delete_cell_step() {
-    let mut pg = Pg(kani::any());
-    kani::assume(wf_leaf(&pg, MAXC));
-    let (_t, n, _fs, _fe, frag) = hdr(&pg);
-    kani::assume(n >= 1 && (frag as usize) + 2 * MAXL + 1 <= (PAGE_SIZE - LEAF_CONTENT_START) / 4);
-    let idx: usize = kani::any();
-    kani::assume(idx < n);
-    let w: usize = kani::any();          // witness entry of the NEW page
-    kani::assume(w + 1 < n);
-    let old_w = if w < idx { entry(&pg, w) } else { entry(&pg, w + 1) };
-    let next_before = PageHeader::from_bytes(&pg.0[..]).unwrap().next_leaf();
+/// delete_cell(idx) on an arbitrary well-formed leaf with n >= 1 cells (fragmentation below the compaction
+/// threshold, as in the shipped configuration where compaction is unreachable): Ok, well formed with n-1
+/// cells, the other entry keeps its key and value, next_leaf unchanged
+fn delete_case(n: usize, idx: usize) {
+    let (mut pg, cells, _fe, frag, next) = any_wf_leaf(n);
+    kani::assume((frag as usize) + 2 * MAXL + 1 <= (PAGE_SIZE - LEAF_CONTENT_START) / 4);
+    let keep = if n == 2 { let c = &cells[1 - idx]; Some((key_of(&pg, c), val_of(&pg, c))) } else { None };
     let ok = {
         let mut leaf = match vs::is_ok_forget(LeafNodeMut::from_page(&mut pg.0[..])) { Some(l) => l, None => { assert!(false); return; } };
         vs::is_ok_forget(leaf.delete_cell(idx)).is_some()
     };
     assert!(ok);
-    assert!(wf_leaf(&pg, MAXC));
-    assert!(hdr(&pg).1 == n - 1);
-    assert!(PageHeader::from_bytes(&pg.0[..]).unwrap().next_leaf() == next_before);
-    if n >= 2 {
-        let e = entry(&pg, w);
-        assert!(e.is_some() && old_w.is_some());
-        let (ek, ekl, ev, evl) = e.unwrap();
-        let (ok_, okl, ov, ovl) = old_w.unwrap();
-        assert!(ekl == okl && evl == ovl && ek == ok_ && ev == ov);
-    }
-    let out_of_range: usize = kani::any();
-    kani::assume(out_of_range >= n - 1);
-    assert!(entry(&pg, out_of_range).is_none());
+    assert!(wf_leaf(&pg, n - 1));
+    assert!(PageHeader::from_bytes(&pg.0[..]).unwrap().next_leaf() == next);
+    if let Some((k, v)) = keep { assert!(same_entry(entry(&pg, 0), &k.0, k.1, &v.0, v.1)); }
+    assert!(entry(&pg, n - 1).is_none());
 }
 
-//@ props=C29,C28 kind=bounded small_pages=1 bound="one leaf page; PAGE_SIZE scaled to 256 bytes; <= 3 cells; keys/values 1..=3 bytes" timeout=1500
-/// update_cell_value_in_place(index, v) with |v| == old length: Ok, page stays well formed, entry index now
-/// has value v and the same key, every other entry unchanged; with a different length: Err and no change
-#[kani::proof]
-#[kani::unwind(6)]
-fn c29_update_value_in_place_step() {
-    let mut pg = Pg(kani::any());
-    kani::assume(wf_leaf(&pg, MAXC));
-    let (_t, n, _fs, _fe, _frag) = hdr(&pg);
-    kani::assume(n >= 1);
-    let idx: usize = kani::any();
-    kani::assume(idx < n);
-    let (_kb, _kl, vb, vl) = any_kv();
-    let old = entry(&pg, idx);
-    let w: usize = kani::any();
-    kani::assume(w < n && w != idx);
-    let old_w = entry(&pg, w);
+/// update_cell_value_in_place(idx, v): Ok iff |v| equals the old value length; then the page stays well
+/// formed, entry idx has the same key and value v, the other entry is unchanged; on Err nothing changes
+fn update_case(n: usize, idx: usize, nvl: usize) {
+    let (mut pg, cells, _fe, _frag, _next) = any_wf_leaf(n);
+    let (_kb, _kl, vb, vl) = any_kv(1, nvl);
+    let (k_old, _v_old) = (key_of(&pg, &cells[idx]), val_of(&pg, &cells[idx]));
+    let other = if n == 2 { let c = &cells[1 - idx]; Some((key_of(&pg, c), val_of(&pg, c))) } else { None };
     let wo: usize = kani::any();
     kani::assume(wo < PAGE_SIZE);
     let byte_before = pg.0[wo];
@@ -239,39 +219,73 @@ fn c29_update_value_in_place_step() {
         let mut leaf = match vs::is_ok_forget(LeafNodeMut::from_page(&mut pg.0[..])) { Some(l) => l, None => { assert!(false); return; } };
         vs::is_ok_forget(leaf.update_cell_value_in_place(idx, &vb[..vl])).is_some()
     };
-    assert!(old.is_some());
-    let (okb, okl, _ovb, ovl) = old.unwrap();
-    assert!(ok == (vl == ovl));
+    assert!(ok == (vl == cells[idx].vl));
     if ok {
-        assert!(wf_leaf(&pg, MAXC));
-        let (ek, ekl, ev, evl) = entry(&pg, idx).unwrap();
-        assert!(ekl == okl && ek == okb && evl == vl);
-        let j: usize = kani::any();
-        kani::assume(j < vl);
-        assert!(ev[j] == vb[j]);
-        if n >= 2 { assert!(entry(&pg, w) == old_w); }
+        assert!(wf_leaf(&pg, n));
+        assert!(same_entry(entry(&pg, idx), &k_old.0, k_old.1, &vb, vl));
+        if let Some((k, v)) = other { assert!(same_entry(entry(&pg, 1 - idx), &k.0, k.1, &v.0, v.1)); }
     } else {
         assert!(pg.0[wo] == byte_before);
     }
 }
+
+macro_rules! leaf_h {
+    ($name:ident, $body:expr) => {
+        //@ props=C29,C28 kind=bounded small_pages=1 bound="one leaf page; PAGE_SIZE scaled to 256 bytes; <= 2 cells before the operation (case split on cell count and position); keys/values 1..=2 bytes" timeout=1500
+        /// per-operation contract on one arbitrary well-formed leaf page (see insert_case / delete_case /
+        /// update_case): structural validity is preserved and exactly the addressed entry changes
+        #[kani::proof]
+        #[kani::stub(eyre::capture_handler, vs::capture_handler)]
+        #[kani::stub(eyre::private::new_adhoc, vs::new_adhoc)]
+        #[kani::stub(eyre::private::format_err, vs::format_err)]
+        #[kani::stub(alloc::fmt::format, vs::format)]
+        #[kani::unwind(5)]
+        fn $name() { $body; }
+    };
+}
+leaf_h!(c29_insert_n0_p0_k1v1, insert_case(0, 0, 1, 1));
+leaf_h!(c29_insert_n1_p0_k2v1, insert_case(1, 0, 2, 1));
+leaf_h!(c29_insert_n1_p1_k1v2, insert_case(1, 1, 1, 2));
+leaf_h!(c29_insert_n2_p0_k1v1, insert_case(2, 0, 1, 1));
+leaf_h!(c29_insert_n2_p1_k2v2, insert_case(2, 1, 2, 2));
+leaf_h!(c29_insert_n2_p2_k2v1, insert_case(2, 2, 2, 1));
+leaf_h!(c29_delete_n1_i0, delete_case(1, 0));
+leaf_h!(c29_delete_n2_i0, delete_case(2, 0));
+leaf_h!(c29_delete_n2_i1, delete_case(2, 1));
+leaf_h!(c29_update_n1_i0_v1, update_case(1, 0, 1));
+leaf_h!(c29_update_n2_i1_v2, update_case(2, 1, 2));
+
+//@ props=C29,C28 kind=bounded small_pages=1 bound="PAGE_SIZE scaled to 256 bytes"
+/// init: any page bytes become a well-formed empty leaf (base case of the page invariant)
+#[kani::proof]
+#[kani::stub(eyre::capture_handler, vs::capture_handler)]
+#[kani::stub(eyre::private::new_adhoc, vs::new_adhoc)]
+#[kani::stub(eyre::private::format_err, vs::format_err)]
+#[kani::stub(alloc::fmt::format, vs::format)]
+#[kani::unwind(5)]
+fn c29_leaf_init_wf() {
+    let mut pg = Pg(kani::any());
+    let ok = vs::is_ok_forget(LeafNodeMut::init(&mut pg.0[..])).is_some();
+    assert!(ok);
+    assert!(wf_leaf(&pg, 0));
+    let h = PageHeader::from_bytes(&pg.0[..]).unwrap();
+    assert!(h.free_end() as usize == PAGE_SIZE && h.frag_bytes() == 0 && h.next_leaf() == 0);
 }
 
 //@ props=C29 kind=mustfail small_pages=1
 /// MUST FAIL (vacuity guard): "delete_cell leaves the cell count unchanged"
 #[kani::proof]
-#[kani::unwind(6)]
 #[kani::stub(eyre::capture_handler, vs::capture_handler)]
 #[kani::stub(eyre::private::new_adhoc, vs::new_adhoc)]
 #[kani::stub(eyre::private::format_err, vs::format_err)]
 #[kani::stub(alloc::fmt::format, vs::format)]
+#[kani::unwind(5)]
 fn c29_mustfail_delete_keeps_count() {
-    let mut pg = Pg(kani::any());
-    kani::assume(wf_leaf(&pg, 1));
-    let (_t, n, _fs, _fe, frag) = hdr(&pg);
-    kani::assume(n == 1 && frag == 0);
+    let (mut pg, _cells, _fe, frag, _next) = any_wf_leaf(1);
+    kani::assume(frag == 0);
     {
         let mut leaf = match vs::is_ok_forget(LeafNodeMut::from_page(&mut pg.0[..])) { Some(l) => l, None => return };
         let _ = vs::is_ok_forget(leaf.delete_cell(0));
     }
-    assert!(hdr(&pg).1 == 1);
+    assert!(wf_leaf(&pg, 1));
 }
